@@ -70,6 +70,25 @@ def run(chk):
         panics = [b for b in bad if b.get('panic') and b.get('text') is None]
         if panics: chk.obligation(name + ' [panic path: ' + panics[0]['panic'][:100] + ']', 'E-MIR/fork', 'inconclusive')
         if not bad: chk.obligation(name, 'E-MIR/fork', 'holds', 0.0, acc > 0, {'length': L, 'paths': len(res), 'accepted_classes': acc, 'claim': 'accept/reject, token list, tree, node count == token count, stored text and height agree with the reference on every path'})
+    # templates: every hybrid spelling x domain x nesting, identifier shapes; concrete and with one symbolic character
+    for edits in (0, 1):
+        res, info = TL.explore_parallel('c05_chars', {'templates': 1, 'edits': edits}, budget=40)
+        chk.paths += len(res); chk.queries += info['queries']; chk.note_functions(info['functions'])
+        base = f'C05/E-MIR templates ({edits} symbolic character substituted at any position)'
+        if info['errors']: chk.obligation(base + ' [' + info['errors'][0][:150] + ']', 'E-MIR/fork', 'inconclusive'); continue
+        groups = {}
+        for r in res: groups.setdefault(r.get('group'), []).append(r)
+        for g, rs in sorted(groups.items(), key=lambda kv: str(kv[0])):
+            name = f'{base}: {g!r} ({len(rs)} paths)'
+            bad = [r for r in rs if r.get('ok') is not True]; done = set()
+            for b in bad[:6]:
+                text = b.get('text')
+                if text is None or text in done: continue
+                done.add(text); chk.native_replays += 1
+                diffs = native_vs_reference(text)
+                if diffs: chk.obligation(name, 'E-MIR/fork', 'violated'); chk.violation(name, 'grammar-template', {'text': text, 'differences': diffs, 'mir': b.get('why')}, f'input {text!r}: ' + '; '.join(diffs)[:400])
+                else: chk.obligation(name + f' (counterexample {text!r}: {b.get("why")} does not reproduce natively)', 'E-MIR/fork', 'inconclusive')
+            if not bad: chk.obligation(name, 'E-MIR/fork', 'holds', 0.0, True, {'template': g, 'edits': edits, 'paths': len(rs)})
     for L in Lt + ([5] if thorough else []):
         params = {'L': L} if L < 5 else {'L': L, 'classes': ['hyb_bind', 'and', 'iff', 'EU', 'not', 'EX', 'prop', 'var', 'group3', 'group_un']}
         res, info = TL.explore_parallel('c05_tokens', params, budget=300)
